@@ -22,9 +22,20 @@ package c11
 // consumer of Ch(), so that "all firings handled" is a fact, not a wait) and the queues the
 // tasks would be appended to (the queue name each task carries is compared).
 //
-// Binding ids are the uuids config.ScheduleID() drew; they are renamed to the ids of the
-// case's bindings (position in the loaded config).  A binding without queue gets the
-// queue "main" (number 0).
+// Binding ids: the REAL ids the config loader produced (config.ConvertSchedule / ScheduleID) are
+// what the hooks' controllers hand to the schedule manager - the harness never replaces them.
+// For the comparison the id STRINGS are numbered: a string gets the number the model gives the
+// FIRST (hook, binding) of the loaded configurations that carries it (modelID: 11, 12, ... in
+// the order of the hooks' paths and of each hook's schedule list - C11_Hm.hm_load); this
+// numbering of strings is injective, so two bindings that were given ONE id string show up as
+// such: in Observation.Loaded (per hook and binding, compared with the model's "one id per
+// (hook, binding)") and in every id set read from the manager's Entries.  An Add / Remove by
+// hand whose id number is a binding's number uses that binding's real id string.
+// Hooks share binding names (an unnamed binding - number 0 - is called "schedule" once loaded),
+// positions in their schedule lists and crontabs; one hook may carry several bindings of one name
+// with different queue / allowFailure / group / includeSnapshotsFrom.  Hooks listed in Input.V0
+// (only bindings without queue, group and snapshots) answer --config in the v0 format.
+// A binding without queue gets the queue "main" (number 0).
 
 import (
 	"context"
@@ -55,6 +66,55 @@ var operatorOnce sync.Once
 
 func hookFile(h int) string { return fmt.Sprintf("%02d-hook.sh", h) }
 
+// firstID, modelID: the model's numbering of the loaded bindings (C11_Hm.first_id, load_from)
+const firstID = 11
+
+func modelID(hooks [][]Binding, h, k int) int {
+	n := firstID
+	for j := 0; j < h; j++ {
+		n += len(hooks[j])
+	}
+	return n + k
+}
+
+// assignIds writes the model's ids into the bindings (for the reader of a case; the Coq side
+// loads the hooks itself and the driver uses modelID)
+func assignIds(hooks [][]Binding) [][]Binding {
+	out := make([][]Binding, len(hooks))
+	for h, bs := range hooks {
+		out[h] = append([]Binding{}, bs...)
+		for k := range out[h] {
+			out[h][k].Id = modelID(hooks, h, k)
+		}
+	}
+	return out
+}
+
+// plain: the binding can be written in a v0 configuration
+func plain(b Binding) bool { return b.Queue == 0 && b.Group == 0 && len(b.Snaps) == 0 }
+
+func isV0(in Input, h int) bool {
+	for _, x := range in.V0 {
+		if x == h {
+			for _, b := range in.Hooks[h] {
+				if !plain(b) {
+					return false
+				}
+			}
+			return len(in.Hooks[h]) > 0
+		}
+	}
+	return false
+}
+
+// loadedName: the name a binding has once loaded
+func loadedName(b Binding) string {
+	if b.Name == 0 {
+		return "schedule"
+	}
+	return name("b", b.Name)
+}
+
 // hookConfig is the --config answer of hook h
 func hookConfig(in Input, h int) string {
 	type sched struct {
@@ -69,6 +129,19 @@ func hookConfig(in Input, h int) string {
 		Name       string `json:"name"`
 		ApiVersion string `json:"apiVersion"`
 		Kind       string `json:"kind"`
+	}
+	if isV0(in, h) {
+		type sched0 struct {
+			Name         string `json:"name,omitempty"`
+			Crontab      string `json:"crontab"`
+			AllowFailure bool   `json:"allowFailure"`
+		}
+		var ss []sched0
+		for _, b := range in.Hooks[h] {
+			ss = append(ss, sched0{Name: name("b", b.Name), Crontab: in.str(b.Crontab), AllowFailure: b.AF})
+		}
+		b, _ := json.Marshal(map[string]any{"schedule": ss})
+		return string(b)
 	}
 	cfg := map[string]any{"configVersion": "v1"}
 	var ss []sched
@@ -131,10 +204,11 @@ func operatorRig(in Input) (*rig, error) {
 	r.sm = sm
 	hm := op.VerifHookManager()
 
-	// the hooks as loaded, the uuids of their bindings
+	// the hooks as loaded, the real ids of their bindings
 	hookIdx := map[string]int{}
-	uuidOf := map[int]string{}
-	numOf := map[string]int{}
+	uuidOf := map[int]string{} // model id of a (hook, binding) -> the real id string of that binding
+	numOf := map[string]int{}  // real id string -> model id of the first (hook, binding) carrying it
+	r.loaded = make([][]int, len(in.Hooks))
 	ctl := make([]*controller.HookController, len(in.Hooks))
 	for h := range in.Hooks {
 		hk := hm.GetHook(hookFile(h))
@@ -147,17 +221,28 @@ func operatorRig(in Input) (*rig, error) {
 		if len(cfgs) != len(in.Hooks[h]) {
 			return r, fmt.Errorf("hook %s: the loaded config has %d schedule bindings, the case %d", hookFile(h), len(cfgs), len(in.Hooks[h]))
 		}
+		r.loaded[h] = []int{}
 		for k, c := range cfgs {
 			b := in.Hooks[h][k]
-			if c.BindingName != name("b", b.Name) || c.ScheduleEntry.Crontab != in.str(b.Crontab) {
+			if c.BindingName != loadedName(b) || c.ScheduleEntry.Crontab != in.str(b.Crontab) {
 				return r, fmt.Errorf("hook %s: the loaded config has its bindings in another order than the case", hookFile(h))
 			}
-			if _, dup := numOf[c.ScheduleEntry.Id]; dup {
-				return r, fmt.Errorf("two bindings share the id %s", c.ScheduleEntry.Id)
+			id := modelID(in.Hooks, h, k)
+			uuidOf[id] = c.ScheduleEntry.Id
+			if _, seen := numOf[c.ScheduleEntry.Id]; !seen {
+				numOf[c.ScheduleEntry.Id] = id
 			}
-			uuidOf[b.Id] = c.ScheduleEntry.Id
-			numOf[c.ScheduleEntry.Id] = b.Id
+			r.loaded[h] = append(r.loaded[h], numOf[c.ScheduleEntry.Id])
 		}
+	}
+	r.bindNum = func(s string) int {
+		switch s {
+		case "schedule":
+			return 0
+		case "":
+			return anomaly // a loaded binding always has a name
+		}
+		return unname("b", s)
 	}
 	r.idStr = func(i int) string {
 		if u, ok := uuidOf[i]; ok {
@@ -229,7 +314,7 @@ func operatorRig(in Input) (*rig, error) {
 	r.tasks = func(crontab string) []TaskObs {
 		res := []TaskObs{}
 		for _, t := range cb(crontab) {
-			res = append(res, taskObs(t, hookIdx, r.queueNum))
+			res = append(res, taskObs(t, hookIdx, r.queueNum, r.bindNum))
 		}
 		// within one hook the controller iterates a map: a stable order for the reader
 		for lo := 0; lo < len(res); {
@@ -266,9 +351,9 @@ func scheduleCbOf(m *shell_operator.ManagerEventsHandler) (func(string) []task.T
 	return nil, fmt.Errorf("ManagerEventsHandler has no field of type func(string) []task.Task")
 }
 
-func taskObs(t task.Task, hookIdx map[string]int, queueNum func(string) int) TaskObs {
+func taskObs(t task.Task, hookIdx map[string]int, queueNum, bindNum func(string) int) TaskObs {
 	hmeta := task_metadata.HookMetadataAccessor(t)
-	o := TaskObs{Hook: anomaly, Queue: queueNum(t.GetQueueName()), Binding: unname("b", hmeta.Binding),
+	o := TaskObs{Hook: anomaly, Queue: queueNum(t.GetQueueName()), Binding: bindNum(hmeta.Binding),
 		Group: unname("g", hmeta.Group), AF: hmeta.AllowFailure, CtxName: anomaly, CtxSnaps: []int{}, CtxGroup: anomaly}
 	if h, ok := hookIdx[hmeta.HookName]; ok {
 		o.Hook = h
@@ -279,7 +364,7 @@ func taskObs(t task.Task, hookIdx map[string]int, queueNum func(string) int) Tas
 	if len(hmeta.BindingContext) == 1 {
 		bc := hmeta.BindingContext[0]
 		if bc.Metadata.BindingType == htypes.Schedule {
-			o.CtxName = unname("b", bc.Binding)
+			o.CtxName = bindNum(bc.Binding)
 		}
 		o.CtxSnaps = unnames("s", bc.Metadata.IncludeSnapshots)
 		o.CtxGroup = unname("g", bc.Metadata.Group)
@@ -294,26 +379,63 @@ func coqTask(t TaskObs) string {
 
 // ---- generation ----
 
-// operatorHooks: 2-4 hooks with 1-2 schedule bindings each (now and then a hook without any),
-// crontabs drawn so that hooks SHARE strings: mostly from the first two strings of the table
-func (g *gen) operatorHooks(nStrings int, focus []int) [][]Binding {
+// operatorHooks: 2-4 hooks with 1-3 schedule bindings each (now and then a hook without any),
+// crontabs drawn so that hooks SHARE strings: mostly from the first two strings of the table.
+// Binding names: 60% of the bindings take their name from a pool of three - unnamed (called
+// "schedule" once loaded), b101, b102 - so that hooks carry same-named / unnamed bindings at the
+// same position on the same crontab, and one hook several bindings of one name (on different
+// crontabs in most draws) with different queue / allowFailure / group / snapshots; the others
+// get a name of their own.  A hook is "plain" (no queue, group, snapshots: can be written in
+// the v0 format) in 25% of the draws.
+func (g *gen) operatorHooks(nStrings int, focus []int) ([][]Binding, []int) {
 	var hooks [][]Binding
-	nm := 100
+	var v0 []int
+	pool := []int{0, 0, 101, 102}
+	nm := 200
 	n := 2 + g.r.Intn(3)
 	for h := 0; h < n; h++ {
 		bs := []Binding{}
 		nb := 1 + g.r.Intn(2)
+		if g.r.Chance(20) {
+			nb = 3
+		}
 		if g.r.Chance(7) {
 			nb = 0
 		}
+		isPlain := g.r.Chance(25)
+		sameName := -1 // every binding of this hook has this name
+		if nb >= 2 && g.r.Chance(40) {
+			sameName = pool[g.r.Intn(len(pool))]
+		}
 		for k := 0; k < nb; k++ {
 			nm++
-			b := Binding{Id: 10*(h+1) + k + 1, Crontab: g.r.Intn(nStrings), Name: nm, AF: g.r.Bool(), Snaps: []int{}, Queue: g.r.Intn(3)}
+			b := Binding{Crontab: g.r.Intn(nStrings), Name: nm, AF: g.r.Bool(), Snaps: []int{}, Queue: g.r.Intn(3)}
+			if g.r.Chance(60) {
+				b.Name = pool[g.r.Intn(len(pool))]
+			}
+			if sameName >= 0 {
+				b.Name = sameName
+			}
 			if g.r.Chance(65) {
 				b.Crontab = g.r.Intn(2) // shared
 			}
 			if len(focus) > 0 && g.r.Chance(50) {
 				b.Crontab = focus[g.r.Intn(len(focus))]
+			}
+			if sameName >= 0 && k > 0 && g.r.Chance(75) {
+				// namesakes of one hook on different crontabs
+				for try := 0; try < 4; try++ {
+					clash := false
+					for _, o := range bs {
+						if o.Crontab == b.Crontab {
+							clash = true
+						}
+					}
+					if !clash {
+						break
+					}
+					b.Crontab = g.r.Intn(nStrings)
+				}
 			}
 			if g.r.Chance(40) {
 				b.Group = 5 + g.r.Intn(2)
@@ -323,11 +445,17 @@ func (g *gen) operatorHooks(nStrings int, focus []int) [][]Binding {
 					b.Snaps = append(b.Snaps, s)
 				}
 			}
+			if isPlain {
+				b.Queue, b.Group, b.Snaps = 0, 0, []int{}
+			}
 			bs = append(bs, b)
+		}
+		if isPlain && nb > 0 && g.r.Chance(60) {
+			v0 = append(v0, h)
 		}
 		hooks = append(hooks, bs)
 	}
-	return hooks
+	return assignIds(hooks), v0
 }
 
 // operatorCase: the hooks' EnableScheduleBindings tasks are handled one after the other, as
@@ -338,7 +466,7 @@ func (g *gen) operatorCase(maxLen int) Input {
 	var focus []int
 	in.Strings, _, focus = g.table(g.r.Chance(30), 0)
 	for len(in.Hooks) == 0 || g.totalBindings(in.Hooks) < 2 {
-		in.Hooks = g.operatorHooks(len(in.Strings), focus)
+		in.Hooks, in.V0 = g.operatorHooks(len(in.Strings), focus)
 	}
 	firing := func() Op {
 		switch k := g.r.Intn(10); {
@@ -398,37 +526,78 @@ func operatorCorpus() []Input {
 	tick := func(n int) Op { return Op{Kind: "Tick", N: n} }
 	all := Op{Kind: "TickAll"}
 	tbl := []string{"*/5 * * * *", "*/7 * * * *", "*/5  * * * *"}
-	early := []Binding{{Id: 11, Crontab: 0, Name: 101, Snaps: []int{}}}
-	late := []Binding{{Id: 21, Crontab: 0, Name: 201, Snaps: []int{}, Queue: 2}}
-	other := []Binding{{Id: 31, Crontab: 1, Name: 301, Snaps: []int{}}}
-	rich := []Binding{{Id: 41, Crontab: 0, Name: 401, Group: 5, AF: true, Snaps: []int{101, 102}, Queue: 1},
-		{Id: 42, Crontab: 2, Name: 402, Group: 6, Snaps: []int{102}}, {Id: 43, Crontab: 0, Name: 403, Snaps: []int{}}}
+	early := []Binding{{Crontab: 0, Name: 101, Snaps: []int{}}}
+	late := []Binding{{Crontab: 0, Name: 201, Snaps: []int{}, Queue: 2}}
+	other := []Binding{{Crontab: 1, Name: 301, Snaps: []int{}}}
+	rich := []Binding{{Crontab: 0, Name: 401, Group: 5, AF: true, Snaps: []int{101, 102}, Queue: 1},
+		{Crontab: 2, Name: 402, Group: 6, Snaps: []int{102}}, {Crontab: 0, Name: 403, Snaps: []int{}}}
+	// hooks that share names and positions: unnamed first bindings on one crontab
+	ua := []Binding{{Crontab: 0, Snaps: []int{}, Queue: 1}}
+	ub := []Binding{{Crontab: 0, Snaps: []int{}, Queue: 2}}
+	uc := []Binding{{Crontab: 0, Snaps: []int{}}}
+	// the same name b101 at position 0 on crontab 0, and at position 1 on crontab 1
+	na := []Binding{{Crontab: 0, Name: 101, Snaps: []int{}}, {Crontab: 1, Name: 102, Snaps: []int{}}}
+	nb := []Binding{{Crontab: 0, Name: 101, AF: true, Snaps: []int{}, Queue: 1}, {Crontab: 1, Name: 102, Group: 5, Snaps: []int{101}}}
+	// one hook, three unnamed bindings on three crontabs, every setting different
+	three := []Binding{{Crontab: 0, AF: true, Snaps: []int{}, Queue: 1}, {Crontab: 1, Group: 5, Snaps: []int{101}, Queue: 2},
+		{Crontab: 2, Group: 6, AF: true, Snaps: []int{101, 102}}}
+	// namesakes b101 in one hook: two on one crontab with different settings, one elsewhere
+	twins := []Binding{{Crontab: 0, Name: 101, AF: true, Snaps: []int{}, Queue: 2}, {Crontab: 0, Name: 101, Group: 5, Snaps: []int{102}},
+		{Crontab: 1, Name: 101, Snaps: []int{}, Queue: 1}}
+	mk := func(v0 []int, hooks [][]Binding, ops ...Op) Input {
+		return Input{Via: "operator", Strings: tbl, Hooks: assignIds(hooks), V0: v0, Ops: ops}
+	}
 	return []Input{
+		// two hooks, each with an unnamed first binding on the same crontab: when one of them
+		// disables its bindings the crontab keeps firing for the other, until that one goes too
+		mk(nil, [][]Binding{ua, ub}, en(0), en(1), tick(0), di(0), tick(0), all, di(1), all, en(0), tick(0)),
+		// three sharers (the third one written in the v0 format), disabled in another order than enabled
+		mk([]int{2}, [][]Binding{ua, ub, uc}, en(2), en(0), en(1), all, di(0), all, di(2), tick(0), di(1), all, en(2), all),
+		// the same names at the same positions in two hooks, two crontabs
+		mk(nil, [][]Binding{na, nb}, en(0), en(1), all, di(1), all, tick(1), en(1), di(0), all, tick(0), tick(1)),
+		// an Add / Remove by hand between the hooks' own: ids 1-4 are not a binding's; then a binding's own pair (12 = hook 1)
+		mk(nil, [][]Binding{ua, ub}, Op{Kind: "Add", C: 0, I: 2}, en(0), en(1), di(0), di(1), all, Op{Kind: "Remove", C: 0, I: 2}, all,
+			en(1), Op{Kind: "Remove", C: 0, I: 12}, all, en(0), all),
+		// one hook with three unnamed bindings on three crontabs: each firing carries the settings of ITS binding
+		mk(nil, [][]Binding{three}, en(0), tick(0), tick(1), tick(2), all, f(1), f(2), di(0), all),
+		// namesakes in one hook (two of them on one crontab) beside a hook with a binding of that name
+		mk(nil, [][]Binding{twins, early}, en(0), tick(0), tick(1), en(1), all, f(0), di(0), all, f(1)),
+		// the example ex_same of C11_Properties.v
+		mk(nil, [][]Binding{{{Crontab: 1, Snaps: []int{}}}, {{Crontab: 1, Snaps: []int{}, Queue: 2}},
+			{{Crontab: 1, Snaps: []int{}, Queue: 1}, {Crontab: 2, Group: 5, AF: true, Snaps: []int{101}, Queue: 3}, {Crontab: 0, Group: 6, Snaps: []int{102}}}},
+			en(0), en(1), tick(0), di(0), tick(0), en(2), f(2), di(1), di(2), all),
 		// the example ex_late of C11_Properties.v: a hook is enabled after the first firing of the crontab it shares
-		{Via: "operator", Strings: tbl, Hooks: [][]Binding{early, late, other},
-			Ops: []Op{en(0), en(2), tick(0), en(1), tick(0), di(0), tick(0), all}},
+		mk(nil, [][]Binding{early, late, other}, en(0), en(2), tick(0), en(1), tick(0), di(0), tick(0), all),
 		// all enabled before the first firing; disabled one by one; the last one gone: no cron entry
-		{Via: "operator", Strings: tbl, Hooks: [][]Binding{early, late, other},
-			Ops: []Op{en(0), en(1), en(2), all, f(0), di(1), all, di(0), all, f(0), di(2), all, tick(0)}},
+		mk(nil, [][]Binding{early, late, other}, en(0), en(1), en(2), all, f(0), di(1), all, di(0), all, f(0), di(2), all, tick(0)),
 		// firings before anything is enabled; a hook with several bindings, groups, snapshots, two spellings
-		{Via: "operator", Strings: tbl, Hooks: [][]Binding{rich, early, {}},
-			Ops: []Op{f(0), all, en(1), f(0), f(2), en(0), f(0), f(2), all, en(2), di(1), all, en(1), en(1), all}},
-		// a hook disabled and enabled again between firings
-		{Via: "operator", Strings: tbl, Hooks: [][]Binding{early, late},
-			Ops: []Op{en(0), tick(0), en(1), tick(0), di(1), tick(0), en(1), tick(0), di(0), di(1), all, en(1), tick(0)}},
+		mk(nil, [][]Binding{rich, early, {}}, f(0), all, en(1), f(0), f(2), en(0), f(0), f(2), all, en(2), di(1), all, en(1), en(1), all),
+		// a hook disabled and enabled again between firings (both hooks plain, the first in the v0 format)
+		mk([]int{0}, [][]Binding{early, {{Crontab: 0, Name: 201, Snaps: []int{}}}},
+			en(0), tick(0), en(1), tick(0), di(1), tick(0), en(1), tick(0), di(0), di(1), all, en(1), tick(0)),
 	}
 }
 
 // exhaustiveOperator: every sequence of <= maxLen operations over three hooks - hooks 0 and 1
 // share a crontab, hook 1 has a second binding on the crontab of hook 2 - with enabling,
-// disabling and firings in every order
-func exhaustiveOperator(maxLen int) []Input {
+// disabling and firings in every order.  same = the bindings that share a crontab also share
+// their name (all unnamed) and, for hooks 0 and 1, their position; hook 1's two bindings are
+// namesakes with different settings
+func exhaustiveOperator(maxLen int, same bool) []Input {
 	tbl := []string{"*/5 * * * *", "*/7 * * * *"}
 	hooks := [][]Binding{
-		{{Id: 11, Crontab: 0, Name: 101, Snaps: []int{}}},
-		{{Id: 21, Crontab: 0, Name: 201, Group: 5, AF: true, Snaps: []int{101}, Queue: 1}, {Id: 22, Crontab: 1, Name: 202, Snaps: []int{}}},
-		{{Id: 31, Crontab: 1, Name: 301, Snaps: []int{}, Queue: 2}},
+		{{Crontab: 0, Name: 101, Snaps: []int{}}},
+		{{Crontab: 0, Name: 201, Group: 5, AF: true, Snaps: []int{101}, Queue: 1}, {Crontab: 1, Name: 202, Snaps: []int{}}},
+		{{Crontab: 1, Name: 301, Snaps: []int{}, Queue: 2}},
 	}
+	if same {
+		for h := range hooks {
+			for k := range hooks[h] {
+				hooks[h][k].Name = 0
+			}
+		}
+	}
+	hooks = assignIds(hooks)
 	alpha := []Op{
 		{Kind: "Enable", H: 0}, {Kind: "Enable", H: 1}, {Kind: "Enable", H: 2}, {Kind: "Disable", H: 0}, {Kind: "Disable", H: 1},
 		{Kind: "Tick", N: 0}, {Kind: "TickAll"},
@@ -477,10 +646,61 @@ func operatorTags(in Input, steps []Obs) []string {
 	} else {
 		tags["operator:no-crontab-shared"] = true
 	}
+	// identity: (position, name, crontab) shared by bindings of two hooks; namesakes within a hook
+	type ident struct{ pos, name, crontab int }
+	twinsOf := map[ident][]int{}
+	for h, bs := range in.Hooks {
+		for k, b := range bs {
+			id := ident{k, b.Name, b.Crontab}
+			twinsOf[id] = append(twinsOf[id], h)
+			for j := 0; j < k; j++ {
+				o := bs[j]
+				if o.Name == b.Name {
+					tags["operator:namesakes-in-one-hook"] = true
+					if o.Queue != b.Queue || o.AF != b.AF || o.Group != b.Group || fmt.Sprint(o.Snaps) != fmt.Sprint(b.Snaps) {
+						if o.Crontab != b.Crontab {
+							tags["operator:namesakes-in-one-hook:different-crontabs-different-settings"] = true
+						} else {
+							tags["operator:namesakes-in-one-hook:same-crontab-different-settings"] = true
+						}
+					}
+				}
+			}
+			if b.Name == 0 {
+				tags["operator:unnamed-binding"] = true
+			}
+		}
+		if isV0(in, h) {
+			tags["operator:v0-config"] = true
+		}
+	}
+	twinCrontab := map[int][]int{} // crontab -> hooks having a binding whose (position, name, crontab) another hook has too
+	for id, hs := range twinsOf {
+		if len(hs) >= 2 {
+			tags["operator:same-name-same-position-same-crontab-in-two-hooks"] = true
+			twinCrontab[id.crontab] = append(twinCrontab[id.crontab], hs...)
+		}
+	}
 	index := map[string]int{}
 	for i, s := range in.Strings {
 		if _, dup := index[s]; !dup {
 			index[s] = i
+		}
+	}
+	// after a Disable: is the crontab of a twin still held by an enabled twin
+	twinCheck := func(enabled, everDisabled map[int]bool) {
+		for _, hs := range twinCrontab {
+			someDisabled, someEnabled := false, false
+			for _, h := range hs {
+				if enabled[h] {
+					someEnabled = true
+				} else if everDisabled[h] {
+					someDisabled = true
+				}
+			}
+			if someDisabled && someEnabled {
+				tags["operator:twin-disabled-while-its-twin-stays-enabled"] = true
+			}
 		}
 	}
 	enabled := map[int]bool{}
@@ -512,6 +732,7 @@ func operatorTags(in Input, steps []Obs) []string {
 			if o.H >= 0 && o.H < len(in.Hooks) && enabled[o.H] {
 				enabled[o.H] = false
 				everDisabled[o.H] = true
+				twinCheck(enabled, everDisabled)
 			}
 		case "Fire", "Tick", "TickAll", "Drain":
 			var handled []int
@@ -534,6 +755,31 @@ func operatorTags(in Input, steps []Obs) []string {
 				tags["operator:one-firing-tasks-for>=2-hooks"] = true
 			}
 			for _, c := range handled {
+				for _, t := range steps[k].Tasks {
+					// a task of a binding that has an earlier namesake in its hook
+					if t.Hook >= 0 && t.Hook < len(in.Hooks) {
+						first := true
+						for _, b := range in.Hooks[t.Hook] {
+							if b.Name == t.Binding {
+								if !first && b.Crontab == c {
+									tags["operator:firing-of-a-later-namesake"] = true
+								}
+								first = false
+							}
+						}
+					}
+				}
+				someDis, someEn := false, false
+				for _, h := range twinCrontab[c] {
+					if enabled[h] {
+						someEn = true
+					} else if everDisabled[h] {
+						someDis = true
+					}
+				}
+				if someDis && someEn {
+					tags["operator:twin-crontab-fires-after-one-twin-was-disabled"] = true
+				}
 				for h := range late[c] {
 					if enabled[h] {
 						tags["operator:crontab-fires-again-after-late-enable"] = true
